@@ -76,19 +76,20 @@ Proof.
 Qed.
 
 Lemma blocked_cases : forall c s t th, nth_error (threads s) t = Some th -> role_pc_ok (trole th) (tpc th) = true ->
-  step c s t = None ->
+  (forall r cu it, tpc th <> WStealHeld r cu it) -> step c s t = None ->
   thread_done th = true \/
   (trole th = RExt /\ tpc th = EIdle /\ op_at th = Some OJoinExt /\ others_done s t = false) \/
   (exists p it, ticket_of (tpc th) = Some (p, it) /\ slot_released (gq s) (global_slots c) p = false) \/
   stop_pc (tpc th) = true \/ (exists q, tpc th = WPop q).
 Proof.
-  intros c s t th Hn R Hnone.
+  intros c s t th Hn R Hnh Hnone.
   destruct (always_enabled (tpc th)) eqn:A; [exfalso; eapply always_enabled_ok; eauto|].
   destruct (ticket_of (tpc th)) as [[p it]|] eqn:Tk.
   { right. right. left. exists p, it. split; auto. destruct (slot_released (gq s) (global_slots c) p) eqn:Rel; auto.
     exfalso. eapply holder_enabled; eauto. }
   destruct (stop_pc (tpc th)) eqn:Sp; [auto|].
-  destruct (trole th) eqn:Er; destruct (tpc th) eqn:Ep; cbn in R, A, Tk, Sp; try discriminate; eauto 6.
+  destruct (trole th) eqn:Er; destruct (tpc th) eqn:Ep; cbn in R, A, Tk, Sp; try discriminate; eauto 6;
+    try (exfalso; eapply Hnh; reflexivity).
   - (* external thread between operations *)
     unfold step, step_ext, take_push in Hnone. rewrite Hn, Er, Ep in Hnone.
     destruct (nth_error (prog th) (opi th)) as [[id| | |]|] eqn:Eo; try discriminate.
@@ -151,7 +152,7 @@ Proof.
   assert (Hcases : forall t th, nth_error (threads s) t = Some th ->
             thread_done th = true \/ (trole th = RExt /\ tpc th = EIdle /\ op_at th = Some OJoinExt /\ others_done s t = false) \/
             (exists q, tpc th = WPop q)).
-  { intros t th Hn. destruct (blocked_cases _ _ _ _ Hn (RC _ _ Hn) (Hnone t)) as [X|[X|[(p & it & Tk & Rel)|[X|X]]]]; auto.
+  { intros t th Hn. destruct (blocked_cases _ _ _ _ Hn (RC _ _ Hn) (fun r cu it => ex_one_task_per_scan _ _ _ Hr _ _ r cu it Hn) (Hnone t)) as [X|[X|[(p & it & Tk & Rel)|[X|X]]]]; auto.
     - rewrite (Hnb _ _ _ _ Hn Tk) in Rel. discriminate.
     - rewrite (Hnostop _ _ Hn) in X. discriminate. }
   (* every external thread is done: two blocked joiners would be two joiner programs *)
